@@ -26,8 +26,16 @@ def valid(case):
     return all(not N.schema_errors(case[k]) for k in ("base", "local", "remote"))
 
 
+def precheck(case):
+    for k in ("base", "local", "remote"):
+        e = N.schema_errors(case[k])
+        if e:
+            return "%s is not schema-valid: %s" % (k, e[0])
+    return None
+
+
 def budget(tier):
-    return 800 if tier == "quick" else 6000
+    return 2400 if tier == "quick" else 6000
 
 
 def strategy(tier):
@@ -71,4 +79,12 @@ def _args_of(f):
     return (f.get("detail") or {}).get("args") or {}
 
 
-DISCRIMINATORS = {}
+def _both_change_cell_type(case, f):
+    """Some base cell (matched by id, or by position when there are no ids) has another cell_type on both sides."""
+    def types(nb):
+        return {c.get("id", i): c["cell_type"] for i, c in enumerate(nb["cells"])}
+    b, l, r = types(case["base"]), types(case["local"]), types(case["remote"])
+    return any(k in l and k in r and l[k] != t and r[k] != t for k, t in b.items())
+
+
+DISCRIMINATORS = {"both_sides_change_cell_type": _both_change_cell_type}
